@@ -213,6 +213,10 @@ Loop:
 		isEdited := (isLeaving && len(edits) != 0)
 
 		if isLeaving {
+			if sstack == nil {
+				// the root itself was skipped: nothing is left to leave
+				break Loop
+			}
 			key, path = pop(path)
 
 			node = parent
